@@ -99,6 +99,16 @@ CHANGE = {
  'C17e': ("martian/syntax/builtin_types.go BuiltinType.IsAssignableFrom", "lost parentheses in the string -> file/path coercion: a path destination accepts every builtin source, component-wise through arrays, maps and structs"),
  'C18e': ("martian/core/jobmanager_remote.go RemoteJobManager.sendJob", "CR LF pairs in the finished job script are normalised to LF: a value containing \\r\\n reaches the job one byte short"),
  'C19e': ("martian/syntax/refactoring/rename_input_param.go renameSelfInputInCalls", "the binding loop stops at the wildcard entry before looking at it: renaming a pipeline input leaves '* = self.<input>' with the old name and the files no longer compile"),
+ 'C01f': ("martian/syntax/collection_types.go ArrayType.FilterJson", "the 'changed' flag of the multi-dimensional branch is assigned per row: when the last row of a WIDE[][] value is empty or null the filtered earlier rows are dropped and the unfiltered original (extra struct members and all) is handed on"),
+ 'C02f': ("martian/core/pipestance.go Pipestance.RestoreForks", "iterates the (still empty) frontier instead of all nodes: after a re-attach run-time forks are not restored, a mapped call counts as complete with its first fork and its consumers start early"),
+ 'C03f': ("martian/core/fork.go Fork.expandForkFromObj", "the copy-on-write of the shared part is dropped in the empty-array branch: an outer element with an empty inner collection marks the part shared with later outer forks as empty, whose jobs are silently skipped"),
+ 'C04f': ("martian/core/node.go Node.makePrenodesForBinding", "only file / directory kinds count as file arguments: outputs of type string or map that carry paths are no longer kept alive for their consumers and are removed by strict VDR at once"),
+ 'C05f': ("martian/util/signal.go sigHandler.notify", "De Morgan slip: SIGHUP is never subscribed to, a hang-up kills mrp by the default disposition and _lock stays behind"),
+ 'C06f': ("martian/core/jobdef.go JobResources.updateFromLazyArgs", "one error variable for three keys, tested after the loop: an ill-typed __threads followed by a valid __mem_gb in _stage_defs is accepted and mrp reports success"),
+ 'C11f': ("martian/core/stage.go encodeJournalName", "'%' is no longer escaped in journal names: nested forks (a, b/fork_c) and (a/fork_b, c) share one journal name and one of them never sees its completion"),
+ 'C12f': ("martian/core/maxjobs_semaphore.go MaxJobsSemaphore.Acquire", "the wake-up is only passed on by a successful Acquire: when the oldest waiter was cancelled the next one sleeps on with a free slot"),
+ 'C13f': ("martian/syntax/compile_types.go StructMember.compile", "a struct whose string / map member precedes its first file member stays 'may contain paths': its files are not materialised under outs/"),
+ 'C14f': ("martian/core/override.go PipestanceOverrides.GetForceVolatile", "the lookup stops at the closest enclosing name that has any override entry: a resource-only entry hides the force_volatile inherited from an enclosing pipeline"),
 }
 matrix = collections.defaultdict(list)
 mp = os.path.join(ROOT, 'matrix.jsonl')
